@@ -22,7 +22,9 @@ RULE = ("Scenario = 2..5 real instances on one simulated link (mixed single/spli
         "every k). Oracle at T_last + 15 s (T_last = completion of the last scripted operation): each browser on an open host "
         "reports exactly the instances of its type registered on open hosts (Added and not Removed, case-insensitive); every "
         "lookup started from an Added callback of a service that stayed registered returned True with the advertised host, "
-        "port, TXT and a non-empty subset of the advertised addresses. Distinct = (#hosts, browser phase, change kinds, class of "
+        "port, TXT and a non-empty subset of the advertised addresses. 15 % of the scenarios are evaluated a second time 1.15 x the "
+        "longest pointer TTL later (more than an hour): refresh queries and answers must have kept every registered instance "
+        "alive in every browser. Distinct = (#hosts, browser phase, change kinds, class of "
         "the dropped datagram, drop scope, duplication) classes.")
 ASSUMPTIONS = ["'eventually' is restated as: 15 virtual seconds after the last scripted operation completed",
                "exactly one datagram is lost per run; delays <= 100 ms; no partitions",
@@ -53,6 +55,7 @@ def gen_scenario(rng: random.Random) -> Dict[str, Any]:
     nsvc = rng.choice([1, 2, 3, 4, 6])
     ntypes = rng.choice([1, 2, 3])
     ops: List[Dict[str, Any]] = []
+    flap = False
     host_addrs: Dict[str, Tuple[List[bytes], List[bytes]]] = {}
     for i in range(nsvc):
         h = rng.randrange(nh)
@@ -67,7 +70,7 @@ def gen_scenario(rng: random.Random) -> Dict[str, Any]:
             host_addrs[s.server] = (list(s.addrs4), list(s.addrs6))
         t = float(rng.choice([0, 100, 900, 2500, 6000, 9000]))
         ops.append({"t": t, "op": "register", "host": h, "svc": i, "spec": s})
-        fate = rng.choice(["stay", "stay", "update", "unregister", "update+unregister"])
+        fate = rng.choice(["stay", "stay", "update", "unregister", "update+unregister", "unregister+register"])
         # the next operation may fall inside the announcement phase of the previous one (announcements at +350/+575/+800 ms
         # after a registration starts, +0/+225/+450 ms after an update)
         tt = t + rng.choice([400.0, 480.0, 600.0, 700.0, 1200.0, 2500.0, 5000.0])
@@ -79,6 +82,13 @@ def gen_scenario(rng: random.Random) -> Dict[str, Any]:
             tt += rng.choice([40.0, 100.0, 260.0, 300.0, 1200.0, 3000.0])
         if "unregister" in fate:
             ops.append({"t": tt, "op": "unregister", "host": h, "svc": i})
+        if fate == "unregister+register":
+            # the same instance name comes back shortly after it was withdrawn (a restarted application)
+            s3 = R.gen_service(rng, name=s.name, type_=tp, min_ttl=10)
+            s3.server = s.server
+            s3.addrs4, s3.addrs6 = host_addrs[s.server]
+            ops.append({"t": tt + rng.choice([300.0, 1000.0, 3000.0, 8000.0]), "op": "register", "host": h, "svc": i, "spec": s3})
+            flap = True
     nb = rng.choice([1, 2, 3, 4])
     for b in range(nb):
         ops.append({"t": float(rng.choice([0, 50, 400, 1000, 3000, 7000, 12000])), "op": "browse", "host": rng.randrange(nh), "type": TYPES[rng.randrange(ntypes)], "bid": b})
@@ -102,7 +112,8 @@ def gen_scenario(rng: random.Random) -> Dict[str, Any]:
         ops.append({"t": last + 2000.0 + eff * rng.choice([0.2, 0.45, 0.55, 0.7, 0.8, 0.97, 1.05]), "op": "browse", "host": rng.randrange(nh),
                     "type": o["spec"].type, "bid": nb + 30, "late": True})
     ops.sort(key=lambda o: o["t"])
-    return {"hosts": hosts, "ops": ops, "dup_p": rng.choice([0.0, 0.0, 0.1, 0.2]), "max_delay": 100.0}
+    # long horizon: a second evaluation after every pointer learned so far would have expired unless it was refreshed
+    return {"hosts": hosts, "ops": ops, "dup_p": rng.choice([0.0, 0.0, 0.1, 0.2]), "max_delay": 100.0, "long_horizon": rng.random() < (0.5 if flap else 0.12)}
 
 
 def execute(sc: Dict[str, Any], seed: int, drop_index: Optional[int], drop_receiver: Optional[str]) -> Dict[str, Any]:
@@ -217,6 +228,11 @@ def execute(sc: Dict[str, Any], seed: int, drop_index: Optional[int], drop_recei
             out["browsers"] = {bid: {"host": b["host"], "type": b["type"]} for bid, b in browsers.items()}
             out["registered"] = dict(registered)
             out["state"] = dict(state)
+            if sc.get("long_horizon"):
+                ttls = [max(float(o["spec"].other_ttl), 1125.0) for o in sc["ops"] if o["op"] in ("register", "update")]
+                await sim.sleep_ms(1000.0 * max(ttls or [1125.0]) * 1.15)
+                out["T_eval_long"] = sim.now_ms()
+                out["state_long"] = dict(state)
             for bid, b in browsers.items():
                 if b["host"] not in closed:
                     await b["obj"].async_cancel()
@@ -273,6 +289,19 @@ def judge(res: Result, sc: Dict[str, Any], out: Dict[str, Any], viol, dropped: s
             viol("c07.converged", "browser_not_converged", "browser %d (type %s on %s) reports %r, registered on the link: %r; dropped=%s (%s); mechanism=%s" % (
                 bid, b["type"], sc["hosts"][b["host"]]["name"], sorted(live), sorted(want), dropped, scope, mech),
                 diff=("ghost" if live - want else "missing"), dropped=dropped, mechanism=mech)
+    if "state_long" in out:
+        # still-registered instances are kept alive by the browsers' refresh queries and the owners' answers: after more than
+        # one full pointer TTL every browser must still report exactly the registered instances
+        for bid, b in out["browsers"].items():
+            if b["host"] in closed:
+                continue
+            res.mon("c07.converged_long")
+            want = {n for n, v in out["registered"].items() if v["type"] == b["type"] and v["host"] not in closed}
+            live = {k[1] for k, v in out["state_long"].items() if k[0] == bid and v == "A"}
+            if live != want:
+                viol("c07.converged", "browser_not_converged_after_ttl", "browser %d (type %s on %s) reports %r %.0f s after the last change, registered on the link: %r; dropped=%s (%s)" % (
+                    bid, b["type"], sc["hosts"][b["host"]]["name"], sorted(live), (out["T_eval_long"] - out["T_last"]) / 1000.0, sorted(want), dropped, scope),
+                    diff=("ghost" if live - want else "missing"), dropped=dropped)
     for key, kind, prev in out.get("alt", []):
         if (kind == "A" and prev == "A") or (kind == "R" and prev != "A"):
             viol("c07.converged", "callbacks_do_not_alternate", "browser %d: %s(%s) after %s" % (key[0], kind, key[1], prev), dropped=dropped)
